@@ -1,11 +1,18 @@
 #!/bin/bash
-# runs every seeded change against the check of the property it breaks; prints one line per seed
+# runs every seeded change against the check of the property it breaks, on a scratch COPY of /repo/src
+# (VERIF_REPO), so /repo itself is never touched; prints one line per seed. Native process-level replays are
+# skipped here (they are built against /repo).
 cd /verif
 for d in seeded/*/; do
   id=$(basename $d)
+  [ "$id" = "benign" ] && continue
   prop=$(python3 -c "import json,sys; print(json.load(open('$d/meta.json')).get('property','${id%%-*}'))")
-  out=$(VERIF_MAX_PLAYBACK=0 VERIF_NO_PLAYBACK=1 tools/seedcheck.sh /verif/$d/patch.diff $prop 2>&1)
+  scratch=/tmp/seedrepo_$id
+  rm -rf $scratch && mkdir -p $scratch && cp -r /repo/src $scratch/src
+  (cd $scratch && patch -p1 -s < /verif/$d/patch.diff) || { echo "$id patch failed"; continue; }
+  out=$(VERIF_REPO=$scratch VERIF_WORK_SUFFIX=-seed VERIF_EVIDENCE_DIR=/tmp/ev_seed VERIF_NO_PLAYBACK=1 VERIF_JOBS=${VERIF_JOBS:-8} python3 vcheck.py $prop --tier quick 2>&1)
   nv=$(echo "$out" | grep -c "^VIOLATION")
   rc=$(echo "$out" | grep -E "^== $prop:" | sed 's/.*exit //')
-  echo "$id  property=$prop  violations=$nv  exit=$rc  $(echo "$out" | grep -m1 '   obligation' | cut -c1-120)"
+  echo "$id  property=$prop  violations=$nv  exit=$rc  $(echo "$out" | grep -m1 '   obligation' | cut -c1-110)"
+  rm -rf $scratch
 done
